@@ -356,4 +356,6 @@ def build(E):
         "TokenBucket.__init__ is applied by contract inside process_request; consume by contract (plus ghost-clock advance)",
         "Eviction clause: 'a fresh bucket gives no more allowance' <=> tokens + idle*rate >= capacity (level is capped at capacity)",
     ]
+    from contracts.server_events import no_falsy_middleware
+    spec.syntactic.append(("[C10] a configured middleware is always consulted: no middleware class can be falsy (the protocol tests 'if self.middleware:')", no_falsy_middleware))
     return spec
